@@ -8,7 +8,8 @@ compute the model.
   panics.  The second is the stride lemma: the flat loop whose position advances by
   `((ix + 1) % src_rows == 0) as usize * stride + 1` is the nest "for each column, for each row".
 * `horzcat_as_written`, `vertcat_as_written`: the dispatch and `solve` the table describes (`evalCat`), run with any
-  routines that compute the closed forms, produce what `hcatAll` / `vcatAll` produce.
+  routines that compute the closed forms, produce what `hcatAll` / `vcatAll` produce; `evalLit_eq`: with the checks
+  of `matrix()` / `matrix_row()` around them, what `matrixLit` produces, errors included.
 -/
 import MechVerif.Gen.ConcatKernels
 import MechVerif.Lemmas.Concat
@@ -1089,6 +1090,125 @@ theorem vertcat_as_written (d : α) (a : Mat α) (as : List (Mat α))
       have h4 : ¬ rest.length + 1 + 1 + 1 + 1 + 1 = 4 := by omega
       simp only [List.length_cons, h2, h3, h4, if_false, Alloc.buffer, Dim.pick, ln, hall]
       exact hcore
+
+end run
+/-! ### the whole literal -/
+
+theorem hcatAll_error_dim : ∀ (bs : List (Mat α)) (acc : Mat α), (∃ b ∈ bs, b.rows ≠ acc.rows) →
+    hcatAll acc bs = .error .dim := by
+  intro bs
+  induction bs with
+  | nil => intro acc ⟨b, hb, _⟩; cases hb
+  | cons b bs ih =>
+    intro acc ⟨x, hx, hne⟩
+    simp only [hcatAll, hcat2]
+    by_cases he : acc.rows = b.rows
+    · simp only [he, if_true]
+      cases List.mem_cons.mp hx with
+      | inl e => subst e; exact absurd he.symm hne
+      | inr hm => exact ih _ ⟨x, hm, by simpa [he] using hne⟩
+    · simp only [he, if_false]
+
+theorem vcatAll_error_dim : ∀ (bs : List (Mat α)) (acc : Mat α), (∃ b ∈ bs, b.cols ≠ acc.cols) →
+    vcatAll acc bs = .error .dim := by
+  intro bs
+  induction bs with
+  | nil => intro acc ⟨b, hb, _⟩; cases hb
+  | cons b bs ih =>
+    intro acc ⟨x, hx, hne⟩
+    simp only [vcatAll, vcat2]
+    by_cases he : acc.cols = b.cols
+    · simp only [he, if_true]
+      cases List.mem_cons.mp hx with
+      | inl e => subst e; exact absurd he.symm hne
+      | inr hm => exact ih _ ⟨x, hm, by simpa [he] using hne⟩
+    · simp only [he, if_false]
+
+theorem rowsM_wf : ∀ (rows : List (List (Mat α))) (rms : List (Mat α)), (∀ row ∈ rows, ∀ b ∈ row, Mat.wf' b) →
+    rowsM rows = .ok rms → ∀ m ∈ rms, Mat.wf' m := by
+  intro rows
+  induction rows with
+  | nil => intro rms _ h m hm; simp only [rowsM, Except.ok.injEq] at h; subst h; cases hm
+  | cons row rows ih =>
+    intro rms hwf h m hm
+    cases row with
+    | nil => simp [rowsM] at h
+    | cons b bs =>
+      simp only [rowsM] at h
+      cases h1 : hcatAll b bs with
+      | error e => simp [h1] at h
+      | ok rm =>
+        simp only [h1] at h
+        cases h2 : rowsM rows with
+        | error e => simp [h2] at h
+        | ok rest =>
+          simp only [h2, Except.ok.injEq] at h; subst h
+          have hb := hwf (b :: bs) List.mem_cons_self
+          cases List.mem_cons.mp hm with
+          | inl e =>
+            subst e
+            exact (hcatAll_spec bs b m (hb b List.mem_cons_self) (fun x hx => hb x (List.mem_cons_of_mem _ hx)) h1).1
+          | inr hr => exact ih rest (fun r hr' => hwf r (List.mem_cons_of_mem _ hr')) h2 m hr
+
+section run
+variable (impl : Routine → Mat α → Mat α → Nat → Except Err (Mat α × Nat))
+  (himpl : ∀ r m dst off, Mat.wf' m → impl r m dst off = modelImpl r m dst off)
+include himpl
+
+theorem evalRow_eq (d : α) (a : Operand α) (as : List (Operand α)) (hwf : ∀ x ∈ a :: as, Mat.wf' (blockOf x)) :
+    evalRow impl expectedHorzcat expectedSolves d (a :: as) = hcatAll (blockOf a) (as.map blockOf) := by
+  simp only [evalRow]
+  by_cases h : as.all (fun x => (blockOf x).rows == (blockOf a).rows) = true
+  · simp only [h, if_true]
+    exact horzcat_as_written impl himpl d a as hwf (fun x hx => by simpa using List.all_eq_true.mp h x hx)
+  · simp only [h]
+    rw [Bool.not_eq_true] at h
+    obtain ⟨x, hx, hne⟩ := List.all_eq_false.mp h
+    rw [hcatAll_error_dim _ _ ⟨blockOf x, List.mem_map.mpr ⟨x, hx, rfl⟩, by simpa using hne⟩]
+    rfl
+
+theorem evalRows_eq (d : α) : ∀ (rows : List (List (Operand α))), (∀ row ∈ rows, ∀ x ∈ row, Mat.wf' (blockOf x)) →
+    evalRows impl expectedHorzcat expectedSolves d rows = rowsM (rows.map (·.map blockOf)) := by
+  intro rows
+  induction rows with
+  | nil => intro _; rfl
+  | cons row rows ih =>
+    intro hwf
+    have ih' := ih (fun r hr => hwf r (List.mem_cons_of_mem _ hr))
+    cases row with
+    | nil => simp only [evalRows, evalRow, List.map_cons, List.map_nil, rowsM]
+    | cons a as =>
+      simp only [evalRows, List.map_cons, rowsM, evalRow_eq impl himpl d a as (hwf _ List.mem_cons_self), ih']
+      cases hcatAll (blockOf a) (as.map blockOf) with
+      | error e => rfl
+      | ok m => cases rowsM (rows.map (·.map blockOf)) <;> rfl
+
+/-- a matrix literal evaluated the way `matrix()` / `matrix_row()` do it, with the dispatch, `solve` and copy routines
+    of the table: the model's `matrixLit`, errors included -/
+theorem evalLit_eq (d : α) (rows : List (List (Operand α))) (hwf : ∀ row ∈ rows, ∀ x ∈ row, Mat.wf' (blockOf x)) :
+    evalLit impl expectedHorzcat expectedVertcat expectedSolves d rows = matrixLit (rows.map (·.map blockOf)) := by
+  simp only [evalLit, matrixLit, evalRows_eq impl himpl d rows hwf]
+  cases h : rowsM (rows.map (·.map blockOf)) with
+  | error e => rfl
+  | ok rms =>
+    have hw := rowsM_wf _ rms (by
+      intro row hrow b hb
+      obtain ⟨r, hr, rfl⟩ := List.mem_map.mp hrow
+      obtain ⟨x, hx, rfl⟩ := List.mem_map.mp hb
+      exact hwf r hr x hx) h
+    match rms, hw with
+    | [], _ => rfl
+    | [m], _ => rfl
+    | m :: m2 :: ms, hw =>
+      simp only
+      by_cases hc : (m2 :: ms).all (fun x => x.cols == m.cols) = true
+      · simp only [hc, if_true]
+        exact vertcat_as_written impl himpl d m (m2 :: ms) hw (fun x hx => by simpa using List.all_eq_true.mp hc x hx)
+      · simp only [hc]
+        rw [Bool.not_eq_true] at hc
+        obtain ⟨x, hx, hne⟩ := List.all_eq_false.mp hc
+        rw [vcatAll_error_dim _ _ ⟨x, hx, by simpa using hne⟩]
+        rfl
 
 end run
 end MechVerif.ConcatIR
